@@ -102,7 +102,7 @@ theorem locationsOf_conv (k : SK) (cs : List Elem) (locs : List Ast.Str) (el : E
 
 /-! ### root operation types -/
 
-def opKw : OpType → SK
+def rootKw : OpType → SK
   | .query => "query_KW"
   | .mutation => "mutation_KW"
   | .subscription => "subscription_KW"
@@ -110,7 +110,7 @@ def opKw : OpType → SK
 /-- `ROOT_OPERATION_TYPE_DEFINITION[OPERATION_TYPE[kw] : NamedType?]` — the named type may be missing (KNOWN FINDING) -/
 def RootTree (r : OpType × Option Ast.Str) (e : Elem) : Prop :=
   ∃ cs d col tail, e = .node "ROOT_OPERATION_TYPE_DEFINITION" cs ∧
-    sigE cs = .node "OPERATION_TYPE" [.tok (opKw r.1) d] :: .tok "COLON" col :: tail ∧
+    sigE cs = .node "OPERATION_TYPE" [.tok (rootKw r.1) d] :: .tok "COLON" col :: tail ∧
     ((r.2 = none ∧ tail = []) ∨ (∃ nm en, r.2 = some nm ∧ tail = [en] ∧ NamedTy nm en))
 
 theorem rootTree_nodeP {r : OpType × Option Ast.Str} {e : Elem} (h : RootTree r e) :
@@ -126,15 +126,15 @@ theorem cRootOperation_some (op : OpType) (nm : Ast.Str) (e : Elem) (h : RootTre
     subst h0
     obtain ⟨ncs, rfl, hv, hns⟩ := hen
     intro R s hp
-    have hf1 : cs.find? (nodeP (· == "OPERATION_TYPE")) = some (.node "OPERATION_TYPE" [.tok (opKw op) d]) := by
+    have hf1 : cs.find? (nodeP (· == "OPERATION_TYPE")) = some (.node "OPERATION_TYPE" [.tok (rootKw op) d]) := by
       rw [find_nodeP_sigE, hsig]; simp [List.find?_cons, nodeP_node]
     obtain ⟨s1, h1, hc1⟩ := childP_some (R := R) (· == "OPERATION_TYPE") _ cs s hp _ hf1
     have hf2 : cs.find? (nodeP (· == "NAMED_TYPE")) = some (.node "NAMED_TYPE" ncs) := by
       rw [find_nodeP_sigE, hsig]; simp [List.find?_cons, nodeP_node, nodeP_tok]
     obtain ⟨s2, h2, hc2⟩ := childP_some (R := R) (· == "NAMED_TYPE") _ cs s hp _ hf2
     obtain ⟨l, hl⟩ := nameOf_node "NAMED_TYPE" ncs nm hv (by rw [hns]; rfl) R s2 h2
-    have hot : cOperationType (⟨(Elem.node "OPERATION_TYPE" [.tok (opKw op) d], s1), h1⟩ : PE R) = some (op, []) := by
-      cases op <;> simp [cOperationType, firstTok, firstTokList, opKw, M.pure']
+    have hot : cOperationType (⟨(Elem.node "OPERATION_TYPE" [.tok (rootKw op) d], s1), h1⟩ : PE R) = some (op, []) := by
+      cases op <;> simp [cOperationType, firstTok, firstTokList, rootKw, M.pure']
     refine ⟨[] ++ ([] ++ ([] ++ (l ++ []))), ?_⟩
     show cRootOperation _ = _
     unfold cRootOperation
@@ -147,14 +147,14 @@ theorem cRootOperation_none (op : OpType) (e : Elem) (h : RootTree (op, none) e)
     (hp : ∀ x ∈ nameRanges e s, x ∈ R) : cRootOperation (⟨(e, s), hp⟩ : PE R) = none := by
   obtain ⟨cs, d, col, tail, rfl, hsig, htail⟩ := h
   rcases htail with ⟨_, rfl⟩ | ⟨nm', en, h0, _, _⟩
-  · have hf1 : cs.find? (nodeP (· == "OPERATION_TYPE")) = some (.node "OPERATION_TYPE" [.tok (opKw op) d]) := by
+  · have hf1 : cs.find? (nodeP (· == "OPERATION_TYPE")) = some (.node "OPERATION_TYPE" [.tok (rootKw op) d]) := by
       rw [find_nodeP_sigE, hsig]; simp [List.find?_cons, nodeP_node]
     obtain ⟨s1, h1, hc1⟩ := childP_some (R := R) (· == "OPERATION_TYPE") _ cs s hp _ hf1
     have hf2 : cs.find? (nodeP (· == "NAMED_TYPE")) = none := by
       rw [find_nodeP_sigE, hsig]; simp [List.find?_cons, nodeP_node, nodeP_tok]
     have hc2 := childP_none (R := R) (· == "NAMED_TYPE") _ cs s hp hf2
-    have hot : cOperationType (⟨(Elem.node "OPERATION_TYPE" [.tok (opKw op) d], s1), h1⟩ : PE R) = some (op, []) := by
-      cases op <;> simp [cOperationType, firstTok, firstTokList, opKw, M.pure']
+    have hot : cOperationType (⟨(Elem.node "OPERATION_TYPE" [.tok (rootKw op) d], s1), h1⟩ : PE R) = some (op, []) := by
+      cases op <;> simp [cOperationType, firstTok, firstTokList, rootKw, M.pure']
     unfold cRootOperation
     rw [child_eq_childP, hc1]
     show M.bind' _ _ = none
@@ -214,7 +214,7 @@ end Apollo.FromCst
 namespace Apollo.Parse
 open Apollo.Rowan hiding Str
 open Apollo.Lex hiding Str
-open Apollo.FromCst (TyTree DescPre OptDirs All2 NamedTy NamesNode OptNames LocTree LocsNode RootTree opKw nodeP)
+open Apollo.FromCst (TyTree DescPre OptDirs All2 NamedTy NamesNode OptNames LocTree LocsNode RootTree rootKw nodeP)
 
 /-- `withNode` when the significance of the head token follows from the lexer fact `LexQ` -/
 theorem tr_withNodeL {α : Type} {E : PState → Prop} (hE : Early E) {H : List Tok → Prop} (K : SK) {body : PI α}
@@ -430,11 +430,11 @@ theorem tr_directiveLocations {E : PState → Prop} (hE : Early E) {H : List Tok
 /-! ### root operation type definition -/
 
 theorem tr_opBump {E : PState → Prop} (t : Tok) (op : Ast.OpType) (hd : t.data = op.name.toList) :
-    Tr E (fun q => KindP (· == .name) q ∧ q.head? = some t) (withNode "OPERATION_TYPE" (bump (opKw op)))
+    Tr E (fun q => KindP (· == .name) q ∧ q.head? = some t) (withNode "OPERATION_TYPE" (bump (rootKw op)))
       (fun _ cs e => ∃ t' : Tok, t'.kind = .name ∧ t'.data = op.name.toList ∧ cs = [t'] ∧
-        e = [Elem.node "OPERATION_TYPE" [Elem.tok (opKw op) t'.data]]) := by
-  have hj : isJunkKind (opKw op) = false := by cases op <;> decide
-  refine (tr_leaf (E := E) "OPERATION_TYPE" (opKw op) hj (fun t' => t'.kind = .name ∧ t'.data = op.name.toList)
+        e = [Elem.node "OPERATION_TYPE" [Elem.tok (rootKw op) t'.data]]) := by
+  have hj : isJunkKind (rootKw op) = false := by cases op <;> decide
+  refine (tr_leaf (E := E) "OPERATION_TYPE" (rootKw op) hj (fun t' => t'.kind = .name ∧ t'.data = op.name.toList)
     (by rintro t' ⟨h, _⟩; rw [h]; exact ⟨rfl, by decide⟩)).mono ?_ ?_
   · rintro q ⟨⟨t', hh, hk⟩, h2⟩
     rw [hh] at h2
@@ -445,10 +445,10 @@ theorem tr_opBump {E : PState → Prop} (t : Tok) (op : Ast.OpType) (hd : t.data
     exact ⟨t', h1, h2, h3, h4⟩
 
 /-- `operation_type` on a Name token: one of the three keywords, as `OPERATION_TYPE[<kw>_KW]` -/
-theorem tr_operationType {E : PState → Prop} (hE : Early E) :
+theorem tr_operationTypeD {E : PState → Prop} (hE : Early E) :
     Tr E (KindP (· == .name)) operationType
       (fun _ cs e => ∃ (op : Ast.OpType) (t : Tok), t.kind = .name ∧ t.data = op.name.toList ∧ cs = [t] ∧
-        e = [Elem.node "OPERATION_TYPE" [Elem.tok (opKw op) t.data]]) := by
+        e = [Elem.node "OPERATION_TYPE" [Elem.tok (rootKw op) t.data]]) := by
   unfold operationType
   apply tr_peekData
   intro o
@@ -480,7 +480,7 @@ theorem tr_operationType {E : PState → Prop} (hE : Early E) :
           exact absurd hf id
 
 /-- `named_type`: a Name under NAMED_TYPE, or — silently — nothing -/
-theorem tr_namedType {E : PState → Prop} (hE : Early E) {H : List Tok → Prop} :
+theorem tr_namedTypeOpt {E : PState → Prop} (hE : Early E) {H : List Tok → Prop} :
     Tr E H namedType (fun _ cs e => SepItem NamedTy cs e ∨ (cs = [] ∧ e = [])) := by
   have h1 := tr_namedTypeAtName hE
   unfold namedType at h1 ⊢
@@ -503,8 +503,8 @@ theorem tr_rootOperationTypeDefinition {E : PState → Prop} (hE : Early E) :
       e = [Elem.tok "COLON" t.data]) :=
     hbc.mono (fun q hq => by obtain ⟨t, h1, h2⟩ := hq; exact ⟨t, h1, by simpa using h2⟩) (fun _ _ _ h => h)
   have hc := tr_ifKind (E := E) (H := fun _ => True) .colon _ _ _
-    (tr_bind hE hbc' (fun _ => tr_namedType hE (H := fun _ => True))) tr_err
-  have hb := tr_bind hE (tr_operationType hE) (fun _ => hc)
+    (tr_bind hE hbc' (fun _ => tr_namedTypeOpt hE (H := fun _ => True))) tr_err
+  have hb := tr_bind hE (tr_operationTypeD hE) (fun _ => hc)
   refine (tr_withNode hE "ROOT_OPERATION_TYPE_DEFINITION" (kindP_sig _ name_sig) hb).mono (fun _ h => h) ?_
   rintro _ cs e ⟨inner, rfl, _, c1, c2, e1, e2, rfl, hin, ⟨op, t, hk, hd, rfl, rfl⟩, _, c3, c4, e3, e4, rfl, rfl,
     ⟨tc, hkc, _, rfl, rfl⟩, hnt⟩
